@@ -381,6 +381,7 @@ impl Check {
             }
             Kind::Fail { sig, detail } => {
                 if let Some(text) = self.is_known(&sig) {
+                    self.save_known(sub, case, &sig);
                     if count {
                         let e = st.known_hits.entry(sig.clone()).or_insert((0, text.to_string()));
                         e.0 += 1;
@@ -398,6 +399,7 @@ impl Check {
                 let mut unknown = None;
                 for (sig, detail) in fails {
                     if let Some(text) = self.is_known(&sig) {
+                        self.save_known(sub, case, &sig);
                         if count {
                             let e = st.known_hits.entry(sig.clone()).or_insert((0, text.to_string()));
                             e.0 += 1;
@@ -411,6 +413,22 @@ impl Check {
                 }
                 unknown
             }
+        }
+    }
+
+    /// development aid (VERIF_SAVE_KNOWN=1): keep the first case that hits each known finding as a
+    /// committed replay so that every later run exercises the finding.
+    fn save_known<T: Serialize>(&self, sub: &str, case: &T, sig: &str) {
+        if std::env::var("VERIF_SAVE_KNOWN").is_err() || self.is_replay() {
+            return;
+        }
+        let dir = self.verif_dir.join("replays").join(&self.id);
+        let _ = std::fs::create_dir_all(&dir);
+        let clean: String = sig.chars().map(|c| if c.is_alphanumeric() || c == '-' { c } else { '_' }).collect();
+        let p = dir.join(format!("known-{}.json", clean));
+        if !p.exists() {
+            let body = json!({"property": self.id, "sub": sub, "note": format!("first generated case hitting known finding {}", sig), "case": case});
+            let _ = std::fs::write(&p, serde_json::to_string(&body).unwrap());
         }
     }
 
